@@ -502,7 +502,7 @@ fn main() {
     // the creation must fail and leave the destination as it was
     if replay.is_none() {
         for packaging in ["OneFile", "TwoFiles", "NoConcat"] {
-            for shape_name in ["multi-badfirst", "multi-badlast"] {
+            for shape_name in ["multi-badfirst", "multi-badlast", "badhigh"] {
                 for preexisting in [false, true] {
                     let cfg = Config { shape: shape_name, old_shape: "small", comp: Comp::Zstd(5), packaging, preexisting };
                     let cfg_json = json!({"packaging": cfg.packaging, "preexisting": cfg.preexisting, "comp": cfg.comp.name(), "shape": cfg.shape});
